@@ -118,3 +118,185 @@ package sqlx
 //@   loop 2 invariant (forall j int :: 0 <= j && j <= loopi1 && gvcScopeName(changes[j]) != "" ==> gvcHasKey(names, gvcScopeName(changes[j])))
 //@   loop 3 localwrites
 //@   loop 3 invariant GvcFresh(ks)
+
+// ---------------------------------------------------------------------------------------
+// C16: the identifier-printing primitives of Builder honour the requested qualifier.
+// Ghost text of a buffer = GvcInit[buf] + GvcLast[buf], where GvcLast is the last chunk written
+// (one byte for WriteByte, the whole string for WriteString; "" only for an empty buffer).
+// Keeping the last chunk apart lets rewriteLastByte be specified without substring arithmetic.  The bytes.Buffer methods used
+// by Builder are assumed to append to this text.
+
+//@ import "bytes"
+//@ ghost var GvcInit GvcArr[*bytes.Buffer, string]
+//@ ghost var GvcLast GvcArr[*bytes.Buffer, string]
+//@ spec func specCh(c byte) string { panic("uninterpreted") }
+//@ func specCh(c byte) (s string)
+//@   trusted
+//@   pure
+//@   ensures len(s) == 1
+//@ spec func specInit(s string) string { panic("uninterpreted") }
+//@ func specInit(s string) (r string)
+//@   trusted
+//@   pure
+//@ spec func specLast(s string) string { panic("uninterpreted") }
+//@ func specLast(s string) (r string)
+//@   trusted
+//@   pure
+//@   ensures s != "" ==> len(r) == 1 && specInit(s)+r == s
+//@ extern func (b *bytes.Buffer) WriteByte(c byte) (err error)
+//@   effect GvcInit = GvcAset(GvcInit, b, GvcAget(GvcInit, b)+GvcAget(GvcLast, b)); GvcLast = GvcAset(GvcLast, b, specCh(c))
+//@   ensures err == nil
+//@ extern func (b *bytes.Buffer) WriteString(s string) (n int, err error)
+//@   effect if s != "" { GvcInit = GvcAset(GvcInit, b, GvcAget(GvcInit, b)+GvcAget(GvcLast, b)); GvcLast = GvcAset(GvcLast, b, s) }
+//@   ensures err == nil && n == len(s)
+//@ extern func (b *bytes.Buffer) Len() (n int)
+//@   pure
+//@   ensures n == len(GvcAget(GvcInit, b))+len(GvcAget(GvcLast, b))
+
+//@ spec func gvcOut(b *Builder) string { return GvcAget(GvcInit, &b.Buffer) + GvcAget(GvcLast, &b.Buffer) }
+//@ spec func gvcQuoted(b *Builder, s string) string {
+//@ spec 	if s == "" {
+//@ spec 		return ""
+//@ spec 	}
+//@ spec 	return specCh(b.QuoteOpening) + s + specCh(b.QuoteClosing)
+//@ spec }
+// the qualifier in force for an object that lives in schema s
+//@ spec func gvcQualifier(b *Builder, s *schema.Schema) string {
+//@ spec 	if b.Schema != nil {
+//@ spec 		return *b.Schema
+//@ spec 	}
+//@ spec 	if s != nil {
+//@ spec 		return s.Name
+//@ spec 	}
+//@ spec 	return ""
+//@ spec }
+//@ spec func gvcDot(q string) string {
+//@ spec 	if q == "" {
+//@ spec 		return ""
+//@ spec 	}
+//@ spec 	return q + specCh('.')
+//@ spec }
+// the buffer of b now reads init+last, every other buffer is untouched
+//@ spec func gvcWrote(b *Builder, init string, last string, oldInit GvcArr[*bytes.Buffer, string], oldLast GvcArr[*bytes.Buffer, string]) bool {
+//@ spec 	return GvcEq(GvcInit, GvcAset(oldInit, &b.Buffer, init)) && GvcEq(GvcLast, GvcAset(oldLast, &b.Buffer, last))
+//@ spec }
+
+// rewriteLastByte and lastByte reach into the buffer's byte slice: trusted against the ghost text.
+//@ spec func gvcWF(b *Builder) bool {
+//@ spec 	return GvcAget(GvcLast, &b.Buffer) != "" || GvcAget(GvcInit, &b.Buffer) == ""
+//@ spec }
+//@ func (b *Builder) rewriteLastByte(c byte)
+//@   trusted
+//@   requires b != nil && gvcWF(b)
+//@   modifies GvcLast
+//@   ensures old(GvcAget(GvcLast, &b.Buffer)) == "" ==> GvcEq(GvcLast, old(GvcLast))
+//@   ensures len(old(GvcAget(GvcLast, &b.Buffer))) == 1 ==> GvcEq(GvcLast, GvcAset(old(GvcLast), &b.Buffer, specCh(c)))
+//@   ensures len(old(GvcAget(GvcLast, &b.Buffer))) > 1 ==> GvcEq(GvcLast, GvcAset(old(GvcLast), &b.Buffer, specInit(old(GvcAget(GvcLast, &b.Buffer)))+specCh(c)))
+
+//@ func (b *Builder) Ident(s string) (r *Builder)
+//@   requires b != nil && gvcWF(b)
+//@   ensures stays-well-formed: gvcWF(b)
+//@   modifies GvcInit, GvcLast
+//@   ensures returns-receiver: r == b
+//@   ensures writes-quoted-ident: s != "" ==> gvcWrote(b, old(gvcOut(b))+gvcQuoted(b, s), specCh(' '), old(GvcInit), old(GvcLast))
+//@   ensures empty-writes-nothing: s == "" ==> GvcEq(GvcInit, old(GvcInit)) && GvcEq(GvcLast, old(GvcLast))
+
+//@ func (b *Builder) mayQualify(s *schema.Schema, top string, children ...string) (r *Builder)
+//@   requires b != nil && gvcWF(b) && top != "" && len(children) <= 1 && (len(children) == 1 ==> children[0] != "")
+//@   ensures stays-well-formed: gvcWF(b)
+//@   modifies GvcInit, GvcLast
+//@   ensures returns-receiver: r == b
+//@   ensures qualifier-then-path: len(children) == 0 ==> gvcWrote(b,
+//@           old(gvcOut(b))+gvcDot(gvcQuoted(b, gvcQualifier(b, s)))+gvcQuoted(b, top), specCh(' '), old(GvcInit), old(GvcLast))
+//@   ensures qualifier-then-path-child: len(children) == 1 ==> gvcWrote(b,
+//@           old(gvcOut(b))+gvcDot(gvcQuoted(b, gvcQualifier(b, s)))+gvcQuoted(b, top)+specCh('.')+gvcQuoted(b, children[0]), specCh(' '), old(GvcInit), old(GvcLast))
+//@   loop 1 invariant 0 <= loopk && loopk <= len(children)
+//@   loop 1 invariant loopk == 0 ==> gvcWrote(b, old(gvcOut(b))+gvcDot(gvcQuoted(b, gvcQualifier(b, s)))+gvcQuoted(b, top), specCh(' '), old(GvcInit), old(GvcLast))
+//@   loop 1 invariant loopk == 1 ==> gvcWrote(b, old(gvcOut(b))+gvcDot(gvcQuoted(b, gvcQualifier(b, s)))+gvcQuoted(b, top)+specCh('.')+gvcQuoted(b, children[0]), specCh(' '), old(GvcInit), old(GvcLast))
+
+// what mayQualify must have written for an object `top` (and an optional child) of schema s
+//@ spec func gvcQualified1(b *Builder, s *schema.Schema, top string, oldOut string, oldInit GvcArr[*bytes.Buffer, string], oldLast GvcArr[*bytes.Buffer, string]) bool {
+//@ spec 	return gvcWrote(b, oldOut+gvcDot(gvcQuoted(b, gvcQualifier(b, s)))+gvcQuoted(b, top), specCh(' '), oldInit, oldLast)
+//@ spec }
+//@ spec func gvcQualified2(b *Builder, s *schema.Schema, top string, child string, oldOut string, oldInit GvcArr[*bytes.Buffer, string], oldLast GvcArr[*bytes.Buffer, string]) bool {
+//@ spec 	return gvcWrote(b, oldOut+gvcDot(gvcQuoted(b, gvcQualifier(b, s)))+gvcQuoted(b, top)+specCh('.')+gvcQuoted(b, child), specCh(' '), oldInit, oldLast)
+//@ spec }
+
+//@ func (b *Builder) Table(t *schema.Table) (r *Builder)
+//@   requires b != nil && gvcWF(b) && t != nil && t.Name != ""
+//@   modifies GvcInit, GvcLast
+//@   ensures returns-receiver: r == b && gvcWF(b)
+//@   ensures qualifier-honoured: gvcQualified1(b, t.Schema, t.Name, old(gvcOut(b)), old(GvcInit), old(GvcLast))
+
+//@ func (b *Builder) View(v *schema.View) (r *Builder)
+//@   requires b != nil && gvcWF(b) && v != nil && v.Name != ""
+//@   modifies GvcInit, GvcLast
+//@   ensures returns-receiver: r == b && gvcWF(b)
+//@   ensures qualifier-honoured: gvcQualified1(b, v.Schema, v.Name, old(gvcOut(b)), old(GvcInit), old(GvcLast))
+
+//@ func (b *Builder) Func(f *schema.Func) (r *Builder)
+//@   requires b != nil && gvcWF(b) && f != nil && f.Name != ""
+//@   modifies GvcInit, GvcLast
+//@   ensures returns-receiver: r == b && gvcWF(b)
+//@   ensures qualifier-honoured: gvcQualified1(b, f.Schema, f.Name, old(gvcOut(b)), old(GvcInit), old(GvcLast))
+
+//@ func (b *Builder) Proc(p *schema.Proc) (r *Builder)
+//@   requires b != nil && gvcWF(b) && p != nil && p.Name != ""
+//@   modifies GvcInit, GvcLast
+//@   ensures returns-receiver: r == b && gvcWF(b)
+//@   ensures qualifier-honoured: gvcQualified1(b, p.Schema, p.Name, old(gvcOut(b)), old(GvcInit), old(GvcLast))
+
+//@ func (b *Builder) SchemaResource(s *schema.Schema, name string) (r *Builder)
+//@   requires b != nil && gvcWF(b) && name != ""
+//@   modifies GvcInit, GvcLast
+//@   ensures returns-receiver: r == b && gvcWF(b)
+//@   ensures qualifier-honoured: gvcQualified1(b, s, name, old(gvcOut(b)), old(GvcInit), old(GvcLast))
+
+//@ func (b *Builder) TableColumn(t *schema.Table, c *schema.Column) (r *Builder)
+//@   requires b != nil && gvcWF(b) && t != nil && t.Name != "" && c != nil && c.Name != ""
+//@   modifies GvcInit, GvcLast
+//@   ensures returns-receiver: r == b && gvcWF(b)
+//@   ensures qualifier-honoured: gvcQualified2(b, t.Schema, t.Name, c.Name, old(gvcOut(b)), old(GvcInit), old(GvcLast))
+
+//@ spec func gvcResName(r any) string {
+//@ spec 	switch c := r.(type) {
+//@ spec 	case *schema.Column:
+//@ spec 		return c.Name
+//@ spec 	case *schema.Index:
+//@ spec 		return c.Name
+//@ spec 	}
+//@ spec 	return ""
+//@ spec }
+//@ spec func gvcResOK(r any) bool {
+//@ spec 	return (GvcIs[*schema.Column](r) && r.(*schema.Column) != nil) || (GvcIs[*schema.Index](r) && r.(*schema.Index) != nil)
+//@ spec }
+
+//@ func (b *Builder) TableResource(t *schema.Table, res any) (r *Builder)
+//@   requires b != nil && gvcWF(b) && t != nil && t.Name != "" && gvcResOK(res) && gvcResName(res) != ""
+//@   modifies GvcInit, GvcLast
+//@   ensures returns-receiver: r == b && gvcWF(b)
+//@   ensures qualifier-honoured: gvcQualified2(b, t.Schema, t.Name, gvcResName(res), old(gvcOut(b)), old(GvcInit), old(GvcLast))
+
+//@ func (b *Builder) ViewResource(v *schema.View, res any) (r *Builder)
+//@   requires b != nil && gvcWF(b) && v != nil && v.Name != "" && gvcResOK(res) && gvcResName(res) != ""
+//@   modifies GvcInit, GvcLast
+//@   ensures returns-receiver: r == b && gvcWF(b)
+//@   ensures qualifier-honoured: gvcQualified2(b, v.Schema, v.Name, gvcResName(res), old(gvcOut(b)), old(GvcInit), old(GvcLast))
+
+// RefTable: the parent table of a foreign key.  A custom qualifier is always used; with the
+// empty qualifier the parent is printed bare unless both tables name different schemas (the
+// documented cross-schema exception, which CheckChangesScope rejects for table changes).
+//@ spec func gvcSchemaName(s *schema.Schema) string {
+//@ spec 	if s == nil {
+//@ spec 		return ""
+//@ spec 	}
+//@ spec 	return s.Name
+//@ spec }
+//@ func (b *Builder) RefTable(childT, parentT *schema.Table) (r *Builder)
+//@   requires b != nil && gvcWF(b) && childT != nil && parentT != nil && parentT.Name != ""
+//@   modifies GvcInit, GvcLast
+//@   ensures returns-receiver: r == b && gvcWF(b)
+//@   ensures custom-qualifier-honoured: b.Schema != nil && *b.Schema != "" ==> gvcQualified1(b, parentT.Schema, parentT.Name, old(gvcOut(b)), old(GvcInit), old(GvcLast))
+//@   ensures same-schema-is-never-named: b.Schema != nil && *b.Schema == "" && (gvcSchemaName(childT.Schema) == "" || gvcSchemaName(parentT.Schema) == "" || gvcSchemaName(childT.Schema) == gvcSchemaName(parentT.Schema)) ==>
+//@           gvcQualified1(b, parentT.Schema, parentT.Name, old(gvcOut(b)), old(GvcInit), old(GvcLast))
+//@   ensures default-uses-own-schema: b.Schema == nil ==> gvcQualified1(b, parentT.Schema, parentT.Name, old(gvcOut(b)), old(GvcInit), old(GvcLast))
